@@ -23,7 +23,7 @@ from typing import Dict, List, Optional
 
 from jinja2 import nodes as J
 
-from ..front_py import AnalysisError, norm, walk_local
+from ..front_py import AnalysisError, norm, walk_local, dotted
 from ..front_jinja import JinjaBinding, JTemplate
 from ..jinja_abstract import instantiate
 from ..front_clang import c_ast, functions, body_of, params_of, walk as cwalk, parent_map as cparents, int_width
@@ -35,6 +35,41 @@ F = CT
 
 def refs(n, name) -> bool:
     return any(y.kind == "DeclRefExpr" and y.get("referencedDecl", {}).get("name") == name for y in cwalk(n))
+
+
+def slot_attribute(eng, rep, F, attr: str) -> None:
+    """The slot of a message in the last-send table is an attribute computed by the Python writer: it must be different
+    for different messages of a device."""
+    found = False
+    for f in eng.prog.functions.values():
+        if not f.module.name.startswith("fcp_can_c"):
+            continue
+        for n in walk_local(f.node):
+            if not (isinstance(n, ast.Assign) and len(n.targets) == 1 and isinstance(n.targets[0], ast.Attribute) and n.targets[0].attr == attr and isinstance(n.targets[0].value, ast.Name)):
+                continue
+            found = True
+            obj = n.targets[0].value.id
+            v = n.value
+            site = "%s.%s = %s" % (obj, attr, norm(v, 60))
+            loop = next((l for l in walk_local(f.node) if isinstance(l, ast.For) and any(x is n for x in ast.walk(l))), None)
+            if loop is not None and isinstance(loop.iter, ast.Call) and dotted(loop.iter.func) == "enumerate" and isinstance(loop.target, ast.Tuple) and len(loop.target.elts) == 2 \
+                    and isinstance(v, ast.Name) and isinstance(loop.target.elts[0], ast.Name) and v.id == loop.target.elts[0].id and norm(loop.target.elts[1]) == obj:
+                rep.ok("J", f.file, f.qual, site, "slot = position of the message in its device's list")
+                continue
+            key = None
+            if isinstance(v, ast.Call) and isinstance(v.func, ast.Attribute) and v.func.attr in ("setdefault", "get") and v.args:
+                key = v.args[0]
+            elif isinstance(v, ast.Subscript):
+                key = v.slice
+            if key is not None and isinstance(key, ast.Attribute) and isinstance(key.value, ast.Name) and key.value.id == obj:
+                if key.attr in ("name", "name_snake", "name_pascal", "frame_id", "id"):
+                    rep.undecided("J", f.file, f.qual, site, "slot keyed by the message's %s; injectivity of the table not decided" % key.attr)
+                else:
+                    rep.violation("J", f.file, f.qual, site, "the last-send slot of a message is keyed by its %s: two messages of a device with the same %s share one timestamp, so after the first is sent the second sees an elapsed time of 0 and is never sent" % (key.attr, key.attr))
+            else:
+                rep.undecided("J", f.file, f.qual, site, "how the slot is chosen is not in a recognised form")
+    if not found:
+        rep.undecided("J", F, "scheduler", "<last send>[{{message.%s}}]" % attr, "no assignment of the slot attribute found in the C writer")
 
 
 def run(eng, rep) -> None:
@@ -140,6 +175,7 @@ def run(eng, rep) -> None:
         m = re.search(r'#include "(\w+_can\.h)"', csrc)
         hname = m.group(1) if m else "J_device_name_snake_can.h"
         pre = "#ifndef J_PLACEHOLDERS\n#define J_PLACEHOLDERS\nenum { J_IDX = 0, J_NMSG = 1, J_PERIOD = 10 };\n#endif\n"
+        pre0 = pre
         with open(os.path.join(tmp, hname), "w") as fh:
             fh.write(pre + hsrc)
         with open(os.path.join(tmp, "dev.c"), "w") as fc:
@@ -152,7 +188,8 @@ def run(eng, rep) -> None:
             und = sorted({m2.group(1) for e_ in errs for m2 in [re.search(r"undeclared identifier '(J_\w+)'", e_)] if m2})
             if not und:
                 break
-            pre += "".join("extern const int %s;\n" % u for u in und)
+            extra_decl = locals().get("extra_decl", "") + "".join("enum { %s = 1 };\n" % u for u in und)
+            pre = pre0 + "#ifndef J_EXTRA_PLACEHOLDERS\n#define J_EXTRA_PLACEHOLDERS\n" + extra_decl + "#endif\n"
             with open(os.path.join(tmp, hname), "w") as fh:
                 fh.write(pre + hsrc)
             with open(os.path.join(tmp, "dev.c"), "w") as fc:
@@ -359,7 +396,11 @@ def run(eng, rep) -> None:
             idx_upd = [y.get("referencedDecl", {}).get("name") or y.get("value") for y in cwalk(lhs) if (y.kind == "IntegerLiteral") or (y.kind == "DeclRefExpr" and y.get("referencedDecl", {}).get("name") != arr)]
             rep.check(idx_upd == idx_test, "S3", F, "scheduler", "slot in update == slot in test (%s / %s)" % (idx_upd, idx_test), "same slot", "the slot updated is not the slot tested")
             if idx_test is not None:
-                rep.check(idx_test == ["J_IDX"], "J", F, "scheduler", "<last send>[{{loop.index0}}]", "slot = position of the message in the loop", "the last-send slot is not loop.index0 of the message loop (messages share or miss slots)")
+                attr_slot = idx_test[0][len("J_%s_" % mvar):] if mvar and len(idx_test) == 1 and str(idx_test[0]).startswith("J_%s_" % mvar) else None
+                if attr_slot:
+                    slot_attribute(eng, rep, F, attr_slot)
+                else:
+                    rep.check(idx_test == ["J_IDX"], "J", F, "scheduler", "<last send>[{{loop.index0}}]", "slot = position of the message in the loop", "the last-send slot is not loop.index0 of the message loop (messages share or miss slots)")
         extra_writes = [s_ for i2, s_ in enumerate(tstm) if i2 != upd_i and s_.kind in ("BinaryOperator", "CompoundAssignOperator") and s_.get("opcode", "=").endswith("=") and s_.get("opcode") not in ("==", "!=", "<=", ">=") and (refs(s_.inner[0], arr) or refs(s_.inner[0], prev))]
         rep.check(not extra_writes, "S3", F, "scheduler", "no other write to the scheduler state in the block", "state changes only by the update", "the guarded block writes the scheduler state in another place")
     # J (instance level): both period macros of a block name the loop's message
